@@ -51,8 +51,10 @@ fn chain_ops<const NV: usize, const LEN: usize, const K: usize>() {
                 }
             }
             let i: usize = kani::any();
-            kani::assume(i < r);
-            assert_eq!(buf[i], data[pos as usize + i]);
+            if i < r {
+                // (an `assume(i < r)` here would silently discard every path on which a read returned 0)
+                assert_eq!(buf[i], data[pos as usize + i]);
+            }
             if r > 0 && r < n && pos + (r as u64) < LEN as u64 {
                 crossed = true;
             }
